@@ -72,6 +72,9 @@ func structLooksTLB(t reflect.Type, depth int) bool {
 			continue
 		}
 		ft := f.Type
+		if ft == reflect.TypeOf(tlb.SumType("")) { // the constructor name of a tagged union (a string kind, but TL-B all the same)
+			continue
+		}
 		for ft.Kind() == reflect.Pointer {
 			ft = ft.Elem()
 		}
@@ -231,16 +234,22 @@ func Drive(w *ev.Writer, o Opts) {
 			continue
 		}
 		t := tlbx.Registry[name]
-		for k := 0; k < per; k++ {
+		// every constructor of a tagged union at least twice, whatever the random choices
+		nc := tlbx.Constructors(t)
+		for k := 0; k < per+2*nc; k++ {
 			var v reflect.Value
 			var gp any
 			func() {
 				defer func() { gp = recover() }()
-				g.Sweep = 0
+				g.Sweep, g.Ctor = 0, 0
+				if k >= per {
+					g.Ctor = k - per + 1
+				}
 				if k < 6 { // the first values of every type sweep the boundary patterns deterministically
 					g.Sweep = k + 1
 				}
 				v = g.New(t)
+				clampDomain(v, 0) // where the Go field is wider than the schema's (#<= 60, #<= 96, ...): stay inside the type's domain
 			}()
 			if gp != nil {
 				w.Emit(ev.M{"k": "GenFail", "type": name, "panic": fmt.Sprint(gp)})
